@@ -263,7 +263,9 @@ def readselection(ReadSet pyreadset, max_cov, preferred_source_ids=None, bridgin
 	undecided_reads = set(range(len(pyreadset)))
 	
 	if len(preferred_reads) > 0:
-		selected_preferred_reads = readselection_helper(coverages, max_cov, readset, vcf_indices, variant_to_reads_map, selected_reads, preferred_reads, positions, bridging)
+		# The helper consumes the set of undecided reads it is given, so hand it a copy:
+		# preferred_reads is still needed below to take these reads out of the second round
+		selected_preferred_reads = readselection_helper(coverages, max_cov, readset, vcf_indices, variant_to_reads_map, selected_reads, set(preferred_reads), positions, bridging)
 		selected_reads.update(selected_preferred_reads)
 		undecided_reads -= preferred_reads
 	
